@@ -180,8 +180,16 @@ func (x *xf) stmt(s ast.Stmt) []ast.Stmt {
 		if _, ok := n.Stmt.(*ast.SelectStmt); ok {
 			fatalf("%s: labelled select statements are not supported", x.fset.Position(n.Pos()))
 		}
+		if rs, ok := n.Stmt.(*ast.RangeStmt); ok {
+			pre, loop, post := x.rangeStmt(rs)
+			n.Stmt = loop
+			return append(append(pre, n), post...)
+		}
 		n.Stmt = x.single(n.Stmt)
 		return []ast.Stmt{n}
+	case *ast.RangeStmt:
+		pre, loop, post := x.rangeStmt(n)
+		return []ast.Stmt{&ast.BlockStmt{List: append(append(pre, loop), post...)}}
 	case *ast.BlockStmt:
 		n.List = x.list(n.List)
 		return []ast.Stmt{n}
@@ -339,6 +347,28 @@ func (x *xf) walkStruct(sv reflect.Value) {
 			x.walk(f)
 		}
 	}
+}
+
+// rangeStmt guards a range loop against being a loop over a channel (simgen has no type information): the ranged
+// operand is evaluated once, simrt.IsChan looks at it once, and if it is a channel every iteration - and the exit -
+// starts with simrt.Woke, so that a goroutine woken natively by the receive parks before it touches anything.
+func (x *xf) rangeStmt(rs *ast.RangeStmt) (pre []ast.Stmt, loop ast.Stmt, post []ast.Stmt) {
+	st := x.site(rs.Pos(), "range")
+	x.walkExprField(&rs.X)
+	if rs.Key != nil {
+		x.walkExprField(&rs.Key)
+	}
+	if rs.Value != nil {
+		x.walkExprField(&rs.Value)
+	}
+	rx, isch := x.fresh("rx"), x.fresh("isch")
+	pre = []ast.Stmt{define(rx, rs.X), define(isch, x.rt("IsChan", id(rx)))}
+	rs.X = id(rx)
+	guard := func() ast.Stmt {
+		return &ast.IfStmt{Cond: id(isch), Body: &ast.BlockStmt{List: []ast.Stmt{&ast.ExprStmt{X: x.rt("Woke", st)}}}}
+	}
+	rs.Body.List = append([]ast.Stmt{guard()}, x.list(rs.Body.List)...)
+	return pre, rs, []ast.Stmt{guard()}
 }
 
 func simpleArg(e ast.Expr) bool {
